@@ -35,7 +35,11 @@ RULE = ("generated: grammar-valid requests/responses with legitimate variation (
         "segmentation policy, every origin look-alike of every fixed allow-list x both origin headers, generated allow-lists of 1..4 entries "
         "(exact with/without port, '*' in scheme/sub-domain/port) with the genuine origin and every look-alike kind (suffix, prefix, port "
         "extension/cut/other, sub-/super-domain, scheme swap, dot-as-wildcard) of EVERY list position, every connection-limit boundary "
-        "(limit-1, limit, limit+1, limit+2 with 0-2 closed earlier connections), every wrong-digest variant. Random part: the rest, plus "
+        "(limit-1, limit, limit+1, limit+2 with 0-2 closed earlier connections), connection-limit HISTORIES on one factory (all event "
+        "sequences of length <=4, thorough <=5, over {valid attempt with its refusal's TCP loss delivered / lingering, admitted connection "
+        "closes, invalid handshake, status-page request, deliver lingering losses} after saturating maxConnections in {1,2}, plus random "
+        "sequences of length 4..10 with idle peers for maxConnections in {1,2,3}; every attempt judged by the harness' own count of live "
+        "transport connections, and the number of OPEN connections never exceeds the limit), every wrong-digest variant. Random part: the rest, plus "
         "client URL component grids and the client x server option matrix. Every case runs under one of 5 read segmentations (incl. "
         "1-byte trickle) in the Twisted and the asyncio world. A case is non-trivial when the handshake monitor compared an outcome with "
         "a classifier verdict (or the matrix oracle); distinct = hash(framework, kind, class tag, configuration, segmentation policy, octets).")
@@ -58,6 +62,7 @@ DECIDING = {"server_must_accept_opened": 200, "server_must_reject_refused": 200,
             "digests_recomputed": 200, "client_requests_compared": 100, "hostile_inputs_monitored": 500, "open_after_timeout_checked": 100,
             "timeouts_evaluated": 20, "oversized_dropped_at_timeout": 5, "matrix_pairs_opened": 50, "matrix_pairs_refused": 20,
             "matrix_messages_exchanged": 50, "grey_cases": 50, "segmentations": 15,
+            "limit_attempts_judged": 2000, "limit_attempts_at_limit_after_rejection": 300, "limit_admitted_after_earlier_rejection": 100,
             "origin_lookalikes_nonlast_judged": 100, "origin_genuine_accepted": 100, "origin_lookalike_classes": 40, "origin_genuine_positions": 15}
 
 OPEN_TIMEOUT = 5
@@ -686,7 +691,23 @@ def server_grey_mutations():
     def target_chars(rng, sp, ver, cfg):
         sp["line"] = "GET %s HTTP/1.1" % rng.choice(["/%zz", "/a\"b", "/<x>", "/a\\b", "/%", "/a|b", "/{x}", "/^", "/`", "/%f", "/\xe9", "/[x]"])
 
-    return {"version-lenient": version_lenient, "request-line-blanks": request_line_blanks, "obs-fold": obs_fold, "http-above-1.1": http_above,
+    def latin1_digits(rng, sp, ver, cfg):
+        # ISO-8859-1 characters that str.isdigit()/isnumeric() call digits but int() refuses (superscripts, fractions), in every numeric field
+        d = lambda: rng.choice(["\xb2", "\xb3", "\xb9", "\xbc", "\xbd", "\xbe"])     # noqa: E731
+        where = rng.choice(["host-port", "host-port", "version", "version", "both", "xff", "ext"])
+        if where in ("host-port", "both"):
+            hset(sp, "Host", "localhost:" + rng.choice([d(), "90" + d() + "0", d() + "5535", "9000" + d(), d() + d()]))
+        if where in ("version", "both"):
+            hset(sp, "Sec-WebSocket-Version", rng.choice([d(), "1" + d(), d() + "3", str(ver) + d(), d() + d()]))
+        if where == "xff":
+            cfg["trust"] = rng.choice([1, 2])
+            sp["h"].append(["X-Forwarded-For", "10.0.0." + d() + ", " + d(), " ", ""])
+        if where == "ext":
+            cfg["pmce"] = True
+            hdel(sp, "Sec-WebSocket-Extensions")
+            sp["h"].append(["Sec-WebSocket-Extensions", "permessage-deflate; client_max_window_bits=1" + d() + "; server_max_window_bits=" + d(), " ", ""])
+
+    return {"latin1-digits": latin1_digits, "version-lenient": version_lenient, "request-line-blanks": request_line_blanks, "obs-fold": obs_fold, "http-above-1.1": http_above,
             "absolute-target": absolute_target, "fragment": fragment, "key-noncanonical": key_noncanonical,
             "version-duplicate": version_duplicate, "origin-duplicate": origin_duplicate, "origin-malformed": origin_malformed,
             "host-port-mismatch": host_port_mismatch, "host-syntax": host_syntax, "big-block": big_block, "pmce-params": pmce_params,
@@ -1084,7 +1105,16 @@ def client_grey_mutations():
         i = rng.randrange(len(sp["h"]))
         sp["h"][i][0] = sp["h"][i][0] + rng.choice([" ", "\t"])
 
-    return {"http-version": http_version, "no-reason": no_reason, "status-blanks": status_blanks, "upgrade-list": upgrade_list,
+    def latin1_digits(rng, sp, cfg, nonce):
+        d = lambda: rng.choice(["\xb2", "\xb3", "\xb9", "\xbc", "\xbd", "\xbe"])     # noqa: E731
+        if rng.random() < 0.5:
+            sp["line"] = "HTTP/1.1 " + rng.choice(["10" + d(), d() + "01", "1" + d() + "1", d() + d() + d(), "101" + d()]) + " Switching Protocols"
+        else:
+            cfg["offer"], cfg["approve"] = True, True
+            hdel(sp, "Sec-WebSocket-Extensions")
+            sp["h"].append(["Sec-WebSocket-Extensions", "permessage-deflate; server_max_window_bits=1" + d() + rng.choice(["", "; client_max_window_bits=" + d()]), " ", ""])
+
+    return {"latin1-digits": latin1_digits, "http-version": http_version, "no-reason": no_reason, "status-blanks": status_blanks, "upgrade-list": upgrade_list,
             "protocol-case": protocol_case, "protocol-odd": protocol_odd, "extension-odd": extension_odd,
             "extension-approved-not-offered": extension_approved_not_offered, "body-indication": body_indication, "obs-fold": obs_fold,
             "ctl-in-value": ctl_in_value, "smuggle-ctl": smuggle_ctl, "name-space": name_space}
@@ -1825,7 +1855,158 @@ def shards(tier, seed):
     return out
 
 
+# ------------------------------------------------------------------------------------------------
+# connection-limit histories: every attempt of a SEQUENCE on one factory is judged by the harness' own connection count
+# ------------------------------------------------------------------------------------------------
+# events:  ["hs", deliver]     a new peer with a VALID handshake; deliver = the TCP loss of a refused peer is delivered at once (else it lingers)
+#          ["bad", deliver]    a new peer with an INVALID handshake (must be refused whatever the count)
+#          ["status", deliver] a new peer with a plain HTTP request (status page / 426, then drop)
+#          ["idle"]            a new peer that connects and stays silent (occupies a transport connection)
+#          ["close", k]        the k-th oldest ADMITTED open connection goes away (peer closes TCP)
+#          ["deliver"]         every lingering TCP loss (refused peers, idle peers) is delivered now
+LIMIT_ALPHA = [["hs", True], ["hs", False], ["close", 0], ["bad", True], ["status", False], ["deliver"]]
+
+
+def exhaustive_limit_cases(maxlen):
+    import itertools
+
+    for n in (1, 2):
+        for ln in range(1, maxlen + 1):
+            for seq in itertools.product(range(len(LIMIT_ALPHA)), repeat=ln):
+                # saturate first (n valid handshakes), then the sequence: the interesting histories all start AT the limit
+                yield {"kind": "limit", "tag": "limit/exhaustive", "n": n, "events": [["hs", True]] * n + [LIMIT_ALPHA[i] for i in seq],
+                       "seg": "whole", "segseed": 0, "reqseed": (n * 1000003 + hash(seq)) & 0xFFFFFFF}
+
+
+def gen_limit_case(rng):
+    n = rng.choice([1, 2, 2, 3, 3])
+    ev = []
+    pre = rng.choice([n, n, n, n - 1, 0])
+    ev += [["hs", True]] * pre
+    for _ in range(rng.randint(3, 8)):
+        k = _w(rng, [(30, "hs"), (8, "bad"), (8, "status"), (6, "idle"), (14, "close"), (10, "deliver")])
+        if k in ("hs", "bad", "status"):
+            ev.append([k, rng.random() < 0.6])
+        elif k == "close":
+            ev.append(["close", rng.randrange(3)])
+        else:
+            ev.append([k])
+    ev.append(["hs", True])
+    return {"kind": "limit", "tag": "limit/random", "n": n, "events": ev, "seg": rng.choice(SEG_SMALL_ONLY), "segseed": rng.getrandbits(32),
+            "reqseed": rng.getrandbits(28)}
+
+
+def run_limit_case(case, R, fw):
+    from vf.ws import WS
+    from vf.world import segmentations
+
+    n = case["n"]
+    rq = random.Random(case["reqseed"])
+    srng = random.Random(case["segseed"])
+    base_cfg = {"versions": [8, 13], "scenario": "default", "origins": ["*"], "null": True, "xport": None, "trust": 0}
+    viol = lambda key, what, **detail: R.violation(key, what, dict(detail, fw=fw, n=n), replay=case)  # noqa: E731
+    w = WS()
+    try:
+        sf = w.server_factory("ws://127.0.0.1:9000", options=dict(maxConnections=n, allowNullOrigin=True, openHandshakeTimeout=3600, webStatus=bool(case["reqseed"] & 1)))
+        conns = []          # the harness' own book: {"ep", "admitted", "what"}; live = transport attached and connection-lost not delivered
+        refused_for_limit = 0
+        R.count("evaluations")
+        R.count("limit_sequences")
+        for step, ev in enumerate(case["events"]):
+            kind = ev[0]
+            if kind == "close":
+                adm = [c for c in conns if c["admitted"] and not c["ep"].lost]
+                if adm:
+                    adm[min(ev[1], len(adm) - 1)]["ep"].peer_close(bool(step & 1))
+                    w.world.settle()
+                continue
+            if kind == "deliver":
+                for c in conns:
+                    if not c["ep"].lost and not c["admitted"]:
+                        if c["ep"].close_requested is not None:
+                            c["ep"].finish_close()
+                        else:
+                            c["ep"].peer_close(True)
+                w.world.settle()
+                continue
+            ep = w.attach(sf, "peer%d" % step)
+            rec = {"ep": ep, "admitted": False, "what": kind}
+            conns.append(rec)
+            if kind == "idle":
+                continue
+            live = sum(1 for c in conns if not c["ep"].lost)                       # transport connections incl. this one
+            admitted_open = sum(1 for c in conns if c["admitted"] and not c["ep"].lost)
+            if kind == "hs":
+                sp, _ver = accept_request_spec(rq, dict(base_cfg))
+                data = build_msg(sp)
+            elif kind == "bad":
+                sp, _ver = accept_request_spec(rq, dict(base_cfg))
+                rq.choice([lambda: hdel(sp, "Sec-WebSocket-Key"), lambda: hset(sp, "Sec-WebSocket-Version", "7"), lambda: hdel(sp, "Host"),
+                           lambda: hset(sp, "Connection", "close")])()
+                data = build_msg(sp)
+            else:
+                data = b"GET /status HTTP/1.1\r\nHost: localhost:9000\r\n\r\n"
+            verdict = H.classify_request(data, H.ServerCfg(versions=[8, 13], max_connections=n, conn_index=live))
+            for chunk in segmentations(srng, data, case["seg"]):
+                if ep.close_requested is not None or ep.lost:
+                    break
+                ep.feed(chunk)
+                if fw == "tx":
+                    w.world.settle()
+            w.world.settle()
+            R.count("limit_attempts_judged")
+            esc = _all_escaped(w)
+            if esc:
+                for e in esc:
+                    viol(escape_key("server", e.exc) + "/limit-history", "exception reached the networking framework (%s): %r" % (e.where, e.exc))
+                return
+            opened = _opened(ep)
+            out = bytes(ep.all_out)
+            hist = "step %d of %r, live=%d admitted_open=%d" % (step, case["events"], live, admitted_open)
+            if verdict.cls == "accept":
+                if not opened:
+                    viol("C07/server/limit-history/refused-under-limit", "valid handshake refused although only %d of %d connections exist (%s): %r" % (
+                        live, n, hist, out[:60]))
+                else:
+                    rec["admitted"] = True
+                    R.count("limit_attempts_admitted")
+                    if refused_for_limit:
+                        R.count("limit_admitted_after_earlier_rejection")
+            elif verdict.cls == "reject":
+                if opened:
+                    at_limit = "max-connections" in verdict.reasons
+                    viol("C07/server/limit-history/%s" % ("admitted-over-limit" if at_limit and kind == "hs" else "opened-invalid"),
+                         "handshake completed although it must be refused (%s; %s)" % (",".join(verdict.reasons), hist), out=out[:80].hex())
+                    rec["admitted"] = True
+                else:
+                    if ep.close_requested is None and not ep.lost:
+                        viol("C07/server/limit-history/not-dropped", "refused peer's transport is not closing (%s)" % hist)
+                    if verdict.reasons == ["max-connections"]:
+                        R.count("limit_attempts_refused_at_limit")
+                        R.seen("limit_refusal_status", out[:12].decode("latin-1"))
+                        if refused_for_limit:
+                            R.count("limit_attempts_at_limit_after_rejection")
+                        refused_for_limit += 1
+            else:
+                raise RuntimeError("harness: limit workload produced a %s request" % verdict.cls)
+            if ev[1] and not rec["admitted"] and not ep.lost:
+                if ep.close_requested is not None:
+                    ep.finish_close()
+                    w.world.settle()
+            n_open = sum(1 for c in conns if getattr(c["ep"].proto, "state", None) == 3 and not c["ep"].lost)
+            if n_open > n:
+                viol("C07/server/limit-history/open-count-exceeds-limit", "%d connections OPEN with maxConnections=%d (%s)" % (n_open, n, hist))
+                return
+        R.seen("nontrivial", h([fw, "limit", n, case["events"], case["seg"], case["reqseed"]]))
+        R.seen("limit_histories", h([n, case["events"]]))
+    finally:
+        if fw == "aio":
+            w.world.close()
+
+
 def run_case(case, R, fw):
+    if case["kind"] == "limit":
+        return run_limit_case(case, R, fw)
     if case["kind"] == "server":
         return run_server_case(case, R, fw)
     if case["kind"] == "client":
@@ -1862,6 +2043,12 @@ def run_shard(params, R):
         if i % parts == part:
             run_case(case, R, fw)
             R.count("systematic_cases")
+    # ---- connection-limit histories: ALL event sequences of length <= 4 (thorough: 5) after saturation, plus random longer ones
+    for i, case in enumerate(exhaustive_limit_cases(5 if tier == "thorough" else 4)):
+        if i % parts == part:
+            run_case(case, R, fw)
+    for _ in range({"quick": 150, "thorough": 500, "pure": 250}[tier]):
+        run_case(gen_limit_case(rng), R, fw)
     # ---- generated classes
     sa, sr, sg, sh, ca, cr, cg, ch, cu, mx = SIZES[tier]
     plan = ([("server", "accept")] * sa + [("server", "reject")] * sr + [("server", "grey")] * sg + [("server", "hostile")] * sh +
@@ -1904,7 +2091,9 @@ MANIFEST_ENTRY = {
              "removed/duplicated/corrupted or one policy violated (method, HTTP version, Host, Upgrade/Connection tokens, key length/alphabet/padding, "
              "version not configured, duplicate subprotocol, origin look-alikes such as good.com.evil.com / evilgood.com / port prefixes against "
              "four fixed allow-lists and against generated allow-lists of 1..4 entries with look-alikes (and genuine origins) derived from every "
-             "list position, decided by an independent whole-origin matcher, null origin, connection limit exceeded after a history of opened and closed connections, wrong/duplicate/truncated "
+             "list position, decided by an independent whole-origin matcher, null origin, connection limit exceeded after a history of opened and closed connections and in whole event histories on one factory "
+             "(attempts at the limit after earlier rejections whose TCP loss was or was not yet delivered, invalid and status-page peers in between; "
+             "every attempt judged by the harness' own connection count), wrong/duplicate/truncated "
              "accept digest, foreign subprotocol, unknown/unoffered/declined extension, required field hidden behind U+0085). Accepted handshakes are "
              "checked for the right Sec-WebSocket-Accept, a subprotocol from the client's list, only offered extensions, and for staying open "
              "past the opening-handshake timeout; endpoints still waiting must be dropped by that timeout. Client requests are compared with the "
